@@ -314,6 +314,10 @@ __strpd_card(struct strpd_s *d, const char *sp, struct dt_spec_s s, char **ep)
 			break;
 		}
 		res = 0 - (d->w < 0);
+		if (d->w == 0 && s.wk_cnt != YWD_MONWK_CNT) {
+			/* %w counts from Sunday, 00 */
+			d->w = DT_SUNDAY;
+		}
 		break;
 	case DT_SPFL_S_MON:
 		switch (s.abbr) {
